@@ -12,7 +12,7 @@ EXTENDS Naturals, Sequences, FiniteSets, TLC
 Classes(entry, dim) ==
   CASE entry = "pipeline" ->
          (CASE dim = "transformer" -> {"slice_0_1", "slice_1_3", "slice_3_1", "slice_9_x", "slice_x_9", "slice_no_options", "slice_no_to", "unknown_type", "null_type", "replace_no_with", "replace_empty"}
-           [] dim = "capture" -> {"ascii", "two_byte", "four_byte", "empty", "long"}
+           [] dim = "capture" -> {"ascii", "two_byte", "four_byte", "empty", "long", "own_placeholder", "other_placeholder"}
            [] dim = "marker_regex" -> {"empty", "open_paren", "open_class", "anchors", "named_group", "optional_named_group", "alternation_named_groups", "nested_optional_group", "dot_star", "huge_repeat", "backref", "unicode_class"}
            [] dim = "header_trigger" -> {"unknown_kind", "equals_null_value", "regex_invalid", "regex_no_marker", "name_empty", "name_unicode"}
            [] dim = "ips" -> {"valid", "prefix_33", "garbage", "v6_all", "host_addr", "empty_list"}
